@@ -601,7 +601,7 @@ func TestVFC13Auth(t *testing.T) {
 			case "name_absent":
 				delete(doc, "auth_name")
 			}
-			body, err := yaml.Marshal(doc)
+			body, err := yaml.Marshal(vfEncodable(doc))
 			if err != nil {
 				t.Fatalf("VERIF-INCONCLUSIVE %v", err)
 			}
@@ -751,7 +751,7 @@ func TestVFC13Bytes(t *testing.T) {
 	rapid.Check(t, func(t *rapid.T) {
 		v := vfUniform(t, "version", vfLast+1)
 		s := vfDrawSettings(t, v, false)
-		body, err := yaml.Marshal(vfRender(s, v))
+		body, err := yaml.Marshal(vfEncodable(vfRender(s, v)))
 		if err != nil {
 			t.Fatalf("VERIF-INCONCLUSIVE %v", err)
 		}
